@@ -599,6 +599,66 @@ def run(ctx):
                        ('calculateGenOnGridSolution:IDIRLOC-not-set' if len(k1[8]) > 1 else 'calculateGenOnGridSolution:' + nm))
                 ext_violation(key, 'grid %s differs from its model: %s' % (nm, d), k1)
 
+    # variogram map on a grid through the FFT path (the default of db_vmap on a DbGrid): zero-padded circular correlations.
+    # The padding formula of the source must keep the shape the theorem C12_fft_size_sufficient is about (fail closed otherwise).
+    vsrc = open(os.path.join(REPO, 'src', 'Variogram', 'VMap.cpp')).read()
+    msz = re.findall(r'dims\[i\]\s*=\s*([^;]+);', vsrc)
+    shape = [re.sub(r'\s+', '', x) for x in msz]
+    if shape != ['1', '(int)ceil((double)(nxgrid[i]+nxmap[i]-1)/8.)*8']:
+        ndis += 1
+        if ctx.violation('db_vmap:fft:padding-formula-changed',
+                         'VMap::_grid_fft no longer pads its working arrays to ceil((nxgrid + nxmap - 1)/8)*8 (found %r): the theorem '
+                         'C12_fft_size_sufficient (padded size >= grid size + half map size, no circular wrap-around) is about that formula' % (msz,),
+                         {'source': 'src/Variogram/VMap.cpp', 'expressions': msz, 'theorem': 'coq/C12/Properties.v: C12_fft_size_sufficient'},
+                         found_input=False) == 'new': pass
+    fftc = []
+    def fft_case(calc, nxs, hs, nvar, hasSel, na):
+        n = 1
+        for v in nxs: n *= v
+        cl = [[1 if (not hasSel or rng.random() < .8) else 0, [([] if rng.random() < na else dy(F(rng.randint(-9, 9)))) for _ in range(nvar)]] for _ in range(n)]
+        return [7, calc, list(nxs), nvar, cl, int(hasSel), list(hs)]
+    modes = [0, 1, 9, 2]
+    kcase = 0
+    for res in range(8):           # every residue of (N + h - 1) mod 8 along the first axis, half extension below and above the grid size
+        for big in (False, True):
+            while True:
+                N = rng.randint(3, 12) if not big else rng.randint(2, 5)
+                cand = [h for h in range(1, 14) if (N + h - 1) % 8 == res and ((h > N - 1) if big else (h <= N - 1))]
+                if cand: break
+            h = rng.choice(cand)
+            nd = 2 if kcase % 3 else 3
+            nxs = [N, rng.randint(2, 4)] + ([2] if nd == 3 else [])
+            hs = [h, rng.randint(1, 4)] + ([1] if nd == 3 else [])
+            if kcase % 2: nxs[0], nxs[1] = nxs[1], nxs[0]; hs[0], hs[1] = hs[1], hs[0]      # the swept axis is not always the first one
+            fftc.append(fft_case(modes[kcase % 4], nxs, hs, rng.choice([1, 2]), rng.random() < .3, rng.choice([0, .1])))
+            kcase += 1
+    for i in range(0 if quick else 150):
+        nd = rng.choice([2, 2, 3])
+        nxs = [rng.randint(2, 14 if nd == 2 else 7) for _ in range(nd)]
+        if nd == 2 and nxs[0] * nxs[1] > 60: nxs[1] = max(2, 60 // nxs[0])
+        hs = [rng.randint(1, 13 if nd == 2 else 6) for _ in range(nd)]
+        fftc.append(fft_case(rng.choice(modes), nxs, hs, rng.choice([1, 2]), rng.random() < .3, rng.choice([0, .1, .3])))
+    fi, fm = eng.run('fft', fftc)
+    for k, c in enumerate(fftc):
+        r = fi[k] if k < len(fi) else None
+        ctx.count('fft' + sx_str(c)[:2000]); ctx.dist('family_db_vmap_fft'); ctx.dist('fft_residue_%d' % ((c[2][0] + c[6][0] - 1) % 8))
+        key = 'db_vmap:fft:' + CALC[c[1]]
+        if r is None or (r and isinstance(r[0], int)):
+            ext_violation('crash:' + key, 'db_vmap (FFT) crashed / failed (%r)' % (r,), c); continue
+        d = None
+        for b, (ib, mb) in enumerate(zip(r, fm[k][0])):
+            nb = [fl(undy(v)) for v in ib[0]]; var = [fl(undy(v)) for v in ib[1]]
+            for q, mc in enumerate(mb):
+                msw, _, mgg = cell_of_model(mc)
+                if nb[q] is None or abs(nb[q] - float(msw)) > 1e-6 * (1 + abs(float(msw))):
+                    d = 'varpair %d cell %d: number of pairs impl=%r expected=%r' % (b, q, nb[q], float(msw)); break
+                if mgg is not None and (var[q] is None or abs(var[q] - float(mgg[0])) > 1e-6 * (1 + abs(float(mgg[0])))):
+                    d = 'varpair %d cell %d: value impl=%r expected=%r' % (b, q, var[q], float(mgg[0])); break
+            if d: break
+        if d is not None:
+            ext_violation(key, 'db_vmap with flag_FFT=true on a %s grid, half extensions %s (padded sizes %s) differs from the pair-by-pair definition: %s' % (
+                              'x'.join(map(str, c[2])), c[6], fm[k][1], d), c)
+
     # variogram maps and variogram clouds
     vm = []
     for i in range(10 if quick else 120):
